@@ -97,6 +97,7 @@ type Obligation struct {
 	Output  string
 	Bounded bool
 	SMTFile string
+	Parts   []*Term // alternative formulation: the goal split per merged path (all parts must be proved)
 }
 
 // FnCtx: verification of one top-level function (shared by inlined activations).
@@ -138,6 +139,7 @@ type FnCtx struct {
 	curBinOp     *ssa.BinOp
 	blockStack   []blockRef
 	freshBase    *Term
+	curLatch     string
 	loopAssume   []loopAssumption
 }
 
@@ -207,6 +209,17 @@ func (c *FnCtx) addObl(st *State, kind, anchor string, goal *Term, pos token.Pos
 	if c.noObl > 0 {
 		return
 	}
+	o := c.addObl1(st, kind, anchor, goal, pos, src)
+	// a postcondition / invariant at a point reached over several merged paths may alternatively be proved path by path
+	if o != nil && o.Status != "trivial" && (kind == "post" || kind == "inv-step" || kind == "inv-init") && st.pc.kind == kApp && st.pc.op == "or" && len(st.pc.args) <= 8 {
+		ts := c.eng.ts
+		for _, d := range st.pc.args {
+			o.Parts = append(o.Parts, ts.Skolemize(ts.Implies(d, goal)))
+		}
+	}
+}
+
+func (c *FnCtx) addObl1(st *State, kind, anchor string, goal *Term, pos token.Pos, src string) *Obligation {
 	ts := c.eng.ts
 	g := ts.Skolemize(ts.Implies(st.pc, goal))
 	c.kindOrd[kind]++
@@ -223,6 +236,7 @@ func (c *FnCtx) addObl(st *State, kind, anchor string, goal *Term, pos token.Pos
 		o.Status = "trivial"
 	}
 	c.obls = append(c.obls, o)
+	return o
 }
 
 // addFactNth adds a lemma about the elements of sequence seq; it is only used for obligations that mention
